@@ -4,7 +4,8 @@
 //   op cl     cat level mode emin_keV emax_keV seed n act_mBq mdl basestyle logging ; nuclide
 //             (cat: 0 none 1 dbd 2 background; -1 = option absent for level/mode/emin/emax/seed/n/act)
 //   op junk   pos kind ; token      (malformed command line: insert a token / drop a value / unknown option)
-//   op wfault kind arg              (1 short writes <=arg bytes, 2 ENOSPC after arg bytes, 3 EIO at write #arg, 4 EIO once (not persistent))
+//   op wfault kind arg              (1 short writes <=arg bytes, 2 ENOSPC after arg bytes, 3 EIO at write #arg, 4 EIO once (not persistent),
+//                                    5 the .d0t file cannot be opened, 6 the .d0c file cannot be opened)
 //   op cuts   n                     (kill points strictly inside each write: n interior offsets)
 //   op epoch  t                     (simulated clock)
 //   op rerun  epoch shortw          (execute the same argv again under another epoch / write chunking)
@@ -260,6 +261,8 @@ Outcome run_run(const Plan & plan, const RunCtx & ctx)
   else if (wkind == 2) { fs::faults().enospc_after = std::max<i64>(0, warg); lossy = true; }
   else if (wkind == 3) { fs::faults().eio_at_write = std::max<i64>(0, warg); lossy = true; }
   else if (wkind == 4) { fs::faults().eio_at_write = std::max<i64>(0, warg); fs::faults().eio_write_persistent = false; lossy = true; }
+  else if (wkind == 5) { fs::faults().open_errno[base + ".d0t"] = 13 /*EACCES*/; lossy = true; }  // the event file cannot be opened
+  else if (wkind == 6) { fs::faults().open_errno[base + ".d0c"] = 13; lossy = true; }             // the companion file cannot be opened
   fs::faults().interior_cuts = (int)cuts; fs::faults().cut_key = plan.hash();
   // an earlier, complete, fault-free run on the same basename: its files are what this run finds
   Stale stale;
@@ -273,9 +276,10 @@ Outcome run_run(const Plan & plan, const RunCtx & ctx)
     else { fs::remove(base + ".d0t"); fs::remove(base + ".d0c"); }
   }
   fs::set_time(epoch);
-  i64 w_err0 = fs::stats().write_errors + fs::stats().enospc;
+  i64 w_err0 = fs::stats().write_errors + fs::stats().enospc + fs::stats().open_failed;
   RunResult rr = run_program(tokens, base, ref.refused ? nullptr : &ref.d0t, &stale);
-  bool write_fault_fired = (fs::stats().write_errors + fs::stats().enospc) > w_err0;
+  bool write_fault_fired = (fs::stats().write_errors + fs::stats().enospc + fs::stats().open_failed) > w_err0;
+  out.ctr["fault_open_failed_fired"] += fs::stats().open_failed;
   fs::faults() = fs::Faults();
   tr.add((u64)rr.rc); tr.adds(rr.d0t); tr.adds(rr.d0c);
   out.ctr["crash_points"] += rr.crash_points;
@@ -295,6 +299,7 @@ Outcome run_run(const Plan & plan, const RunCtx & ctx)
     if (!rr.kill_violation.empty()) violation("stale-marker-with-changed-event-file", "stale-marker-with-changed-event-file " + std::string(ref.refused ? "refused" : "accepted"), rr.kill_violation);
     // refusal: no event record may exist at exit (unless the files of an earlier run were left untouched)
     if (untouched) out.ctr["probe_refused_line_left_stale_files_untouched"]++;
+    else if (stale.any() && rr.d0t == stale.d0t) out.ctr["probe_refused_line_left_stale_event_file_untouched"]++; // records of the earlier run, not of this one
     else if (nrec > 0 || rr.d0t.find_first_not_of(" \n\t") != std::string::npos)
       violation("events-written-for-refused-line", "events-written-for-refused-line " + clclass,
                 "the reference refuses this command line (" + ref.why + ") but the program wrote " + std::to_string(nrec) + " event record(s)");
@@ -368,9 +373,11 @@ Outcome run_run(const Plan & plan, const RunCtx & ctx)
     outcome = "write-fault";
     out.ctr["runs_with_fired_write_fault"]++;
     // marker only if complete: under write errors the final state must satisfy the same implication
-    if (has_marker(rr.d0c) && rr.d0t != ref.d0t)
+    bool untouched3 = stale.any() && rr.d0t == stale.d0t && rr.d0c == stale.d0c; // the run gave up before touching the earlier run's files
+    if (!rr.kill_violation.empty()) violation("stale-marker-with-changed-event-file", "stale-marker-with-changed-event-file write-fault", rr.kill_violation);
+    else if (has_marker(rr.d0c) && rr.d0t != ref.d0t && !untouched3)
       violation("marker-after-failed-writes", "marker-after-failed-writes",
-                "write errors were injected (" + std::string(wkind == 2 ? "ENOSPC" : "EIO") + "), the .d0t file holds " + std::to_string(nrec) + " of "
+                "write errors were injected (" + std::string(wkind == 2 ? "ENOSPC" : (wkind >= 5 ? "open failure" : "EIO")) + "), the .d0t file holds " + std::to_string(nrec) + " of "
                     + std::to_string(count_records(ref.d0t)) + " records, yet the companion file ends with '@status=0' (exit status " + std::to_string(rr.rc) + ")");
     else out.ctr["probe_write_fault_without_marker"]++;
   }
@@ -426,7 +433,7 @@ Plan gen_run(u64 seed, u64 idx, const RunCtx & ctx)
   }
   u64 f = idx % 4;
   if (f == 1) { Op w; w.k = "wfault"; w.a = {1, r.range(1, 64)}; p.ops.push_back(w); }                      // short writes only: must be invisible
-  else if (f == 2) { Op w; w.k = "wfault"; u64 k = r.below(3); w.a = {(i64)(2 + k), k == 0 ? r.range(0, 6000) : r.range(0, 60)}; p.ops.push_back(w); }
+  else if (f == 2) { Op w; w.k = "wfault"; u64 k = r.below(5); w.a = {(i64)(2 + k), k == 0 ? r.range(0, 6000) : r.range(0, 60)}; p.ops.push_back(w); }
   if (r.chance(0.5)) { Op o; o.k = "cuts"; o.a = {r.range(1, 3)}; p.ops.push_back(o); }
   if (r.chance(0.5)) { Op o; o.k = "epoch"; o.a = {(i64)r.below(4000000000ULL)}; p.ops.push_back(o); }
   if (r.chance(0.3)) { Op o; o.k = "prior"; o.a = {(i64)r.below(1000), r.range(1, 6)}; o.s = {r.pick(std::vector<std::string>{"Co60", "K40", "Cs137+Ba137m", "Tl208"})}; p.ops.push_back(o); }
